@@ -179,6 +179,10 @@ type WorldCfg struct {
 	// OldMBStart > 0: the chain stores two magic blocks, an older one from round 0 whose sharders are
 	// Sharders + OldSharders, and the current one from round OldMBStart whose sharders are Sharders only
 	OldMBStart int64
+	// OwnDKGFault: the DKG instance the NUT itself works with is inconsistent with the public polynomials of the magic
+	// block: 1 = aggregated from a strict subset (>= T) of the secret shares dealt to it (what SetDKGSFromStore accepts
+	// after a restart), 2 = one of the aggregated secret shares is the one dealt to another party. 0 = consistent.
+	OwnDKGFault int
 }
 
 type World struct {
@@ -198,7 +202,11 @@ type World struct {
 	OutsideMiners []*Peer
 	OldSharders   []*Peer           // sharders of the older magic block only (WorldCfg.OldMBStart)
 	OldMB         *block.MagicBlock // nil unless OldMBStart > 0
-	Self          *Peer
+	// NutDKG is the instance handed to mc.SetDKG. Miners[0].DKG always stays the consistent one (what the NUT's
+	// key share should be); the two differ iff WorldCfg.OwnDKGFault != 0 took effect (OwnDKGBroken).
+	NutDKG       *bls.DKG
+	OwnDKGBroken bool
+	Self         *Peer
 
 	mu  sync.Mutex
 	Out []Captured
@@ -357,7 +365,7 @@ func NewWorld(cfg WorldCfg) *World {
 		p.Node.SetStatus(node.NodeStatusActive)
 	}
 	if !cfg.NoDKG && cfg.SelfType != "sharder" {
-		if err := mc.SetDKG(w.Self.DKG, mb.StartingRound); err != nil {
+		if err := mc.SetDKG(w.NutDKG, mb.StartingRound); err != nil {
 			panic(err)
 		}
 	}
@@ -430,6 +438,46 @@ func (w *World) runDKG(mb *block.MagicBlock, rng *sim.RNG) {
 			panic(err)
 		}
 	}
+	w.NutDKG = w.Miners[0].DKG
+	if w.Cfg.OwnDKGFault == 0 {
+		return
+	}
+	// the NUT's own, inconsistent instance
+	nut := w.Miners[0]
+	bad := bls.MakeDKG(t, n, nut.ID())
+	bad.MagicBlockNumber, bad.StartingRound = mb.MagicBlockNumber, mb.StartingRound
+	fault := w.Cfg.OwnDKGFault
+	if fault == 1 && t >= n {
+		fault = 2 // no strict subset of size >= T exists
+	}
+	keep := n
+	if fault == 1 {
+		keep = t + rng.Intn(n-t) // T .. N-1 senders
+	}
+	order := rng.Perm(n)
+	for k, fi := range order[:keep] {
+		from := w.Miners[fi]
+		to := bls.ComputeIDdkg(nut.ID())
+		if fault == 2 && k == 0 {
+			to = bls.ComputeIDdkg(w.Miners[1+rng.Intn(n-1)].ID()) // a share dealt to somebody else
+		}
+		sh, err := from.DKG.ComputeDKGKeyShare(to)
+		if err != nil {
+			panic(err)
+		}
+		if err := bad.AddSecretShare(bls.ComputeIDdkg(from.ID()), sh.GetHexString(), false); err != nil {
+			panic(err)
+		}
+	}
+	if !bad.HasAllSecretShares() {
+		panic("inconsistent DKG instance would not be accepted by SetDKGSFromStore")
+	}
+	bad.AggregateSecretKeyShares()
+	if err := bad.AggregatePublicKeyShares(mpks); err != nil {
+		panic(err)
+	}
+	w.NutDKG = bad
+	w.OwnDKGBroken = !bad.Si.IsEqual(&nut.DKG.Si)
 }
 
 // Close cancels everything the NUT started and lets pending fake timers fire.
